@@ -13,8 +13,7 @@ Lemma content_insert_inv self pos it w r w' :
             w' = wset w self (set_content n (insert_at (n_content n) (N.to_nat pos) it)).
 Proof.
   unfold content_insert. intros H. wstep H.
-  - winv E. destruct (_ <? _); [discriminate|]. apply set_node_wset in H as (-> & ->). eauto.
-  - apply get_node_inv in E as (n & _ & [=] & _).
+  winv E. destruct (_ <? _); [discriminate|]. apply set_node_wset in H as (-> & ->). eauto.
 Qed.
 
 (* inserting an element that already points to `self` and is not yet listed by it *)
@@ -83,12 +82,12 @@ Lemma create_inner_spec self name pos version w r w' :
   end.
 Proof.
   unfold create_sub_element_inner. intros H C.
-  wstep H; [winv E | winv E].
-  wstep H; [winv E | winv E].
+  wstep H; winv E.
+  wstep H; winv E.
   destruct v as [[et ix]|]; [|winv H; auto].
-  wstep H; [winv E | winv E].
+  wstep H; winv E.
   destruct v; [winv H; auto|].
-  wstep H; [|apply alloc_walloc in E as ([=] & _)].
+  wstep H.
   apply alloc_walloc in E as ([= ->] & ->).
   wstep H.
   - winv H. destruct (create_pair w self n (new_node (PElem self) name et) pos _ _ C Hn eq_refl eq_refl E) as (C' & O' & _ & Hc & Hnx).
@@ -132,12 +131,12 @@ Lemma raw_set_cdata_inv i v version w r w' :
             w' = wset w i (set_content n (match n_content n with [] => [CData v] | _ :: t => CData v :: t end)).
 Proof.
   unfold raw_set_character_data. intros H.
-  wstep H; [winv E|winv E].
-  wstep H; [winv E|winv E].
+  wstep H; winv E.
+  wstep H; winv E.
   destruct (_ || _); [|winv H; auto].
-  wstep H; [winv E|winv E].
+  wstep H; winv E.
   destruct v1 as [cs|]; [|winv H; auto].
-  wstep H; [winv E|winv E].
+  wstep H; winv E.
   destruct v1; [|winv H; auto].
   apply set_node_wset in H as (-> & ->). right. eauto.
 Qed.
@@ -182,19 +181,18 @@ Lemma Pres_create_named_inner self name item pos m version :
 Proof.
   unfold create_named_sub_element_inner. intros w r w' H C.
   destruct (is_empty item); [winv H; auto|].
-  wstep H; [winv E | winv E; auto].
-  wstep H; [winv E | winv E; auto].
+  wstep H; winv E.
+  wstep H; winv E.
   destruct v as [[et ix]|]; [|winv H; auto].
-  wstep H; [winv E | winv E; auto].
+  wstep H; winv E.
   destruct (negb v); [winv H; auto|].
-  wstep H; [winv E | winv E; auto].
+  wstep H; winv E.
   wstep H; [|auto].
   destruct (negb a); [winv H; auto|].
   wstep H; [|auto].
   wstep H; [|auto].
   destruct a1; [winv H; auto|].
   wstepn H c Ea.
-  2:{ apply alloc_walloc in Ea as ([=] & _). }
   apply alloc_walloc in Ea as ([= ->] & ->).
   wstepn H u Ei.
   2:{ destruct (create_pair w self n (new_node (PElem self) name et) pos _ _ C Hn eq_refl eq_refl Ei) as (_ & _ & [=] & _). }
@@ -204,7 +202,6 @@ Proof.
   destruct (Pres_raw_create_sub _ _ _ _ _ _ Es C1) as (C2 & O2).
   destruct (raw_create_sub_fresh _ _ _ _ _ _ Es C1) as (nd & Hnd & Hnc).
   wstepn H u2 Et.
-  2:{ apply wtry_inv in Et as (r0 & _ & [=]). }
   pose proof (Pres_try_raw_set_cdata_empty _ _ _ _ _ _ _ Et Hnd Hnc) as ST.
   match type of ST with same_tree ?wa ?wb =>
     assert (C3 : Core wb) by (eapply Core_same_tree; eauto);
